@@ -2,7 +2,7 @@
 from .. import families, scan
 from ..families import short, ctor_fields, self_path, sub_struct_pos, adt_field
 from ..terms import simple_name
-from . import racelike, flow, common, c01, c02, joinlike
+from . import racelike, flow, common, c01, c02, c03, joinlike
 
 PROPERTY = "C09"
 LEVEL = "other"
@@ -39,6 +39,8 @@ def run(ctx):
         units = families.subwaker_units(M, ("zip",), groups=False)
         for u in units:
             rule_row(ctx, M, u)
+            with ctx.renamed({"C03.GUARD": "C09.ROW"}):
+                c03.rule_guard(ctx, u)
             rule_emit(ctx, M, u)
             rule_end(ctx, M, u)
         n = joinlike.rule_ext(ctx, M, "stream::stream_ext::StreamExt", "zip", "zip", "C09.EXT")
